@@ -39,7 +39,7 @@ def run(ctx, model_ok):
         ctx.cov["evaluations"] += ss["ops"]
         ctx.cov["traces_validated_against_impl"] += ss["histories"]
         ctx.cov["rule"] += ("; sstate stream: random histories (2-12 operations: update on the root or a sub-object in nested / magic / mixed notation with all flag combinations, attribute "
-                            "assignment of leaf values, None, dicts, strings, unknown names, method / dunder / private-slot / unknown underscored names, the deprecated alias, defaults.reset(), display.style.reset(), obj.style = dict / None / "
+                            "assignment of leaf values, None, dicts, strings, unknown names, method / dunder / private-slot / unknown underscored names, the deprecated alias, deliberately rejected multi-key updates (valid keys next to an unknown name / refused value / the alias), defaults.reset(), display.style.reset(), obj.style = dict / None / "
                             "other.style, reads) on the real magpylib.defaults and on 0-3 real objects of all eight object classes; outcome (exception class) and the full as_dict() of the object "
                             "touched compared exactly after EVERY operation with Model/StyleState.lean run on the regenerated classes / validators / DEFAULTS (Gen/StyleSchema); the real heap is "
                             "checked for property objects shared between objects, and a final reset() against the pristine as_dict(); defaults are reset before and after every history")
@@ -54,12 +54,16 @@ def run(ctx, model_ok):
                             "histories in which magpylib.defaults itself is changed by assignments to plain properties at any depth (accepted or rejected), reset() and reads, with arbitrary "
                             "operations on the objects in between; NOT proved for update() / dict assignments / display.style.reset() on the defaults and for the objects' own styles: these "
                             "re-build sub-objects from their dictionaries, and that this changes no other leaf needs `construct` to be idempotent on every reached state (stability preserved by "
-                            "every operation) — proved for the states at import time (initial_states_stable), otherwise observed by the sstate stream on every final state",
+                            "every operation). Proved of that so far: reachable_states_wellformed — after ANY history every object has exactly its class's keys in order at every level and every stored "
+                            "leaf is a fixpoint of its validator (validators_idempotent is computed over the regenerated table); NOT yet proved: well-formed => `construct` rebuilds the tree "
+                            "identically (needs magic_to_dict = identity on well-keyed trees and the constructor-keyword reordering); stability itself is proved for the states at import time "
+                            "(initial_states_stable) and observed by the sstate stream on every final state",
                             "'invalid names are rejected': a theorem for every name that is not a property and not in the regenerated per-class list of non-property names the code still "
                             "lets through (private slots `_color`, `__doc__`, `__module__`, `__dict__`, the frozen flag — witness private_slots_not_rejected; the model reports `shadow` for "
                             "them and makes no claim afterwards); every method / dunder-method name is rejected since repo fix 3fc7703 (method_names_rejected)",
-                            "a rejected update() is not atomic in the code (witness rejected_update_applies_earlier_keys): 'a rejected operation leaves the state unchanged' is a theorem for attribute "
-                            "assignment only",
+                            "'a rejected operation leaves the state unchanged' is a theorem for every operation (rejected_update_keeps_state since repo fix cea5f08, rejected_op_keeps_world) "
+                            "except defaults.reset() itself, which is `display = None` followed by an update and is shown never to raise on reachable worlds (reset_restores); object IDENTITY "
+                            "after a rejected update (the same property objects stay in place) is observed on the real heap by the sstate stream, the model has no addresses",
                             "value validation is a regenerated TABLE (every leaf setter probed on None, a dict and a panel of 86 values closed under the setters), not a model of the validators' code; "
                             "values outside the panel are not covered",
                             "sharing through explicit assignment of a property OBJECT (`b.style.path = a.style.path` stores the same Path object in both styles) is not in the model (no addresses); the "
